@@ -162,6 +162,10 @@ func (c *Channel) Deliver(out, x []byte) ([]byte, error) {
 				}
 			}
 			if isApp {
+				if i == 1 {
+					// authenticated traffic through the current session keeps it alive
+					c.lastReceived = now
+				}
 				appData = out
 				return nil, nil
 			}
